@@ -26,7 +26,7 @@ ASSUMPTIONS = ["abstract value = (set of ground atoms, map fluent -> number); -0
                "assignment into state_fluents), never through private dicts of a fact"]
 REAL_VS_STUB = {"real": ["State.__eq__/copy/serialize, ProblemParser, TrajectoryParser.parse_state, PDDLTokenizer, "
                          "Operator.apply, GroundedPredicate, PDDLFunction"], "stub": ["__hash__ seam"]}
-TECHNIQUE = "deterministic simulation: seeded construction/mutation histories over a pool of states, abstract value model checked after every step"
+TECHNIQUE = "deterministic simulation: seeded construction/mutation histories over a pool of states (five routes incl. merged), kept parsers with aborted readings; abstract value model checked after every step"
 DESIGN_REF = "DESIGN.md §5 C14"
 LEVEL_TEXT = ("seeded exploration of construction and mutation histories; an abstract value model is maintained for every live "
               "state and all pairs are checked after every operation; sampling, not proof")
